@@ -20,8 +20,10 @@ pub enum Role {
     Enumeral,
     Value,
     NestedComponent,
+    /// component and alternative whose type is an anonymous constructed type: the hoisted item is named after them
+    HoistParent,
 }
-const ROLES: [Role; 7] = [Role::Module, Role::Type, Role::Component, Role::Alternative, Role::Enumeral, Role::Value, Role::NestedComponent];
+const ROLES: [Role; 8] = [Role::Module, Role::Type, Role::Component, Role::Alternative, Role::Enumeral, Role::Value, Role::NestedComponent, Role::HoistParent];
 
 fn upper_first(s: &str) -> String {
     let mut c = s.chars();
@@ -40,6 +42,7 @@ fn source(role: Role, name: &str) -> String {
         Role::Enumeral => format!("Mq1 DEFINITIONS AUTOMATIC TAGS ::= BEGIN\nTq1 ::= ENUMERATED {{ {name}, eq2 }}\nTq2 ::= SEQUENCE {{ fq1 Tq1 DEFAULT {name} }}\nEND\n"),
         Role::Value => format!("Mq1 DEFINITIONS AUTOMATIC TAGS ::= BEGIN\n{name} INTEGER ::= 5\nTq1 ::= SEQUENCE {{ fq1 INTEGER DEFAULT {name} }}\nEND\n"),
         Role::NestedComponent => format!("Mq1 DEFINITIONS AUTOMATIC TAGS ::= BEGIN\nTq1 ::= SEQUENCE {{ fq1 SEQUENCE {{ {name} BOOLEAN }}, fq2 CHOICE {{ {name} NULL, cq3 BOOLEAN }} }}\nEND\n"),
+        Role::HoistParent => format!("Mq1 DEFINITIONS AUTOMATIC TAGS ::= BEGIN\nTq1 ::= SEQUENCE {{ {name} SEQUENCE {{ fq8 BOOLEAN }}, fq2 INTEGER }}\nTq2 ::= CHOICE {{ {name} SET {{ fq9 NULL }}, cq3 BOOLEAN }}\nEND\n"),
     }
 }
 
@@ -146,6 +149,26 @@ fn judge(role: Role, name: &str, generated: &str) -> Result<Vec<(String, String)
             let it = m.items.iter().find(|i| matches!(i.kind, Kind::Const { .. })).ok_or("constant not found")?;
             vec![Found { ident: it.name.clone(), annotation: None, annotated_role: false }]
         }
+        Role::HoistParent => {
+            // the hoisted items must be referenced by the identifier they are defined with
+            let t1 = m.find("Tq1").ok_or("Tq1 missing")?;
+            let t2 = m.find("Tq2").ok_or("Tq2 missing")?;
+            let Kind::Struct { fields, .. } = &t1.kind else { return Err("Tq1 not a struct".into()) };
+            let Kind::Enum { variants } = &t2.kind else { return Err("Tq2 not an enum".into()) };
+            let f = fields.first().ok_or("no fields")?;
+            let v = variants.first().ok_or("no variants")?;
+            let payload = v.payload.first().cloned().unwrap_or_default();
+            for (what, ty) in [("component", f.ty.clone()), ("alternative", payload)] {
+                let defined = m.items.iter().any(|i| matches!(i.kind, Kind::Struct { .. }) && i.name == ty);
+                if !defined {
+                    out.push(("reference-spelled-differently".into(), format!("the anonymous type of {what} `{name}` is referenced as `{ty}`, no such item is defined")));
+                }
+            }
+            vec![
+                Found { ident: f.name.clone(), annotation: f.attrs.kv("identifier").map(|s| s.to_string()), annotated_role: true },
+                Found { ident: v.name.clone(), annotation: v.attrs.kv("identifier").map(|s| s.to_string()), annotated_role: true },
+            ]
+        }
         Role::NestedComponent => {
             let mut v = vec![];
             for it in &m.items {
@@ -175,7 +198,7 @@ fn judge(role: Role, name: &str, generated: &str) -> Result<Vec<(String, String)
         let case_ok = match role {
             Role::Type => id.starts_with(|c: char| c.is_uppercase()) && !id.trim_start_matches("R_").contains('_'),
             Role::Component | Role::Module => !id.chars().any(|c| c.is_uppercase()),
-            Role::NestedComponent => true,
+            Role::NestedComponent | Role::HoistParent => true,
             Role::Value => !id.chars().any(|c| c.is_lowercase()),
             Role::Alternative | Role::Enumeral => true,
         };
